@@ -81,7 +81,7 @@ class Ctx:
         self.tier = tier
         self.seed = seed
         self.rng = gen.SplitMix64(seed * 1000003 + sum(map(ord, prop)))
-        self.scale = 1          # escalation multiplier (10 during the failing-input search)
+        self.scale = int(os.environ.get("VERIF_SCALE", "1") or 1)   # escalation multiplier (10 during the search)
         self.searching = False
         self.evaluations = 0
         self.nontrivial = set()
